@@ -342,6 +342,10 @@ class HelicityAmplitudeBuilder:
             raise ValueError(msg)
         self.__reaction = reaction
         self.__adapter = HelicityAdapter(reaction)
+        for transition in reaction.transitions:
+            # amplitudes are also formulated for permutations of identical particles
+            for graph in _perform_combinatorics(transition):
+                self.__adapter.register_topology(_freeze(graph).topology)
         self.__config = BuilderConfiguration(
             spin_alignment=NoAlignment(),
             scalar_initial_state_mass=False,
